@@ -159,6 +159,22 @@ Theorem C15_roles_users_inverse : forall k s u r d, Inv k s ->
 Proof. exact roles_users_inverse_views. Qed.
 Print Assumptions C15_roles_users_inverse.
 
+(* ---------- the resource-centred views ---------- *)
+
+(* get_implicit_users_for_resource(res)            = users_for_resource ... roles=get_all_roles()          None,
+   get_implicit_users_for_resource_by_domain(res,d) = users_for_resource ... roles=get_all_roles_by_domain(d) (Some d)
+   (Mgmt.step QUsersForResource / QUsersForResourceDom).  Whatever `roles` is: the view never raises, lists
+   nothing twice, is exactly the rules on the resource (of the domain) with a subject in `roles` replaced by each of
+   its DIRECT users (res_contrib), and every permission it reports is one that enforce grants. *)
+Theorem C15_resource_view_exact_and_sound : forall k s roles res dom,
+  rbac_kind k -> Inv k s -> wf_p k s -> m_enabled s = true -> res <> 0 -> view_ok k dom ->
+  exists out rm', users_for_resource k (m_rm s) roles res dom (m_p s) [] = Ok (out, rm')
+    /\ NoDup out
+    /\ (forall x, In x out <-> exists r, In r (m_p s) /\ res_contrib k s roles res dom r x)
+    /\ (forall x, In x out -> decision_of (snd (enforce_ex_m k s x)) = Ok true).
+Proof. exact resource_view_exact_and_sound. Qed.
+Print Assumptions C15_resource_view_exact_and_sound.
+
 (* ---------- over histories ---------- *)
 
 (* after ANY admissible management history from a fresh enforcer the role queries are exact *)
@@ -241,3 +257,12 @@ Proof.
             by (vm_compute; reflexivity); rewrite H in E; exact E|].
   split; vm_compute; reflexivity.
 Qed.
+
+(* the resource view on the first example: editor's permission on data1 is reported for editor's direct
+   users admin and bob (not for alice, who holds it through admin), and enforce grants both *)
+Example C15_example_resource_view :
+  view_ok k_rbac15 None
+  /\ o_val (snd (step k_rbac15 ex_state (QUsersForResource 1008))) = ok (vrules [[1006; 1008; 1011]; [1004; 1008; 1011]])
+  /\ decision_of (snd (enforce_ex_m k_rbac15 ex_state [1006; 1008; 1011])) = Ok true
+  /\ decision_of (snd (enforce_ex_m k_rbac15 ex_state [1004; 1008; 1011])) = Ok true.
+Proof. split; [reflexivity|]. split; [vm_compute; reflexivity|]. split; vm_compute; reflexivity. Qed.
